@@ -173,28 +173,50 @@ fn via_machine(c: &SampleCase, obs: &mut Obs) -> Result<(), Failure> {
         ActionSpec::Block { bypass: false, replace: true, timeout: c.dist, duration: c.dist, limit: None },
         ActionSpec::Timer { replace: false, duration: c.dist, limit: Some(c.dist) },
     ];
-    let machines: Vec<MachineSpec> = actions
+    // the candidate in every slot a distribution can occupy, one arrangement per machine (each slot
+    // also next to well-formed neighbours, so that a check skipped for one slot is not masked by another)
+    let one = DistSpec::constant(1.0);
+    let cs = |d: DistSpec| Some(CounterSpec { op: 0, dist: Some(d), copy: false });
+    let plain = ActionSpec::Pad { bypass: false, replace: false, timeout: one, limit: None };
+    let arrangements: Vec<(ActionSpec, Option<CounterSpec>, Option<CounterSpec>)> = vec![
+        // everywhere at once
+        (actions[0], cs(c.dist), cs(c.dist)),
+        (actions[1], cs(c.dist), None),
+        (actions[2], None, cs(c.dist)),
+        // exactly one slot holds the candidate, every other slot is well-formed
+        (plain, cs(c.dist), None),
+        (plain, None, cs(c.dist)),
+        (plain, cs(one), cs(c.dist)),
+        (plain, cs(c.dist), cs(one)),
+        (ActionSpec::Pad { bypass: true, replace: true, timeout: c.dist, limit: None }, None, None),
+        (ActionSpec::Pad { bypass: true, replace: true, timeout: one, limit: Some(c.dist) }, None, None),
+        (ActionSpec::Block { bypass: false, replace: false, timeout: c.dist, duration: one, limit: None }, None, None),
+        (ActionSpec::Block { bypass: true, replace: false, timeout: one, duration: c.dist, limit: None }, None, None),
+        (ActionSpec::Block { bypass: true, replace: false, timeout: one, duration: c.dist, limit: Some(one) }, None, None),
+        (ActionSpec::Block { bypass: true, replace: false, timeout: one, duration: one, limit: Some(c.dist) }, None, None),
+        (ActionSpec::Timer { replace: true, duration: c.dist, limit: None }, None, None),
+        (ActionSpec::Timer { replace: true, duration: one, limit: Some(c.dist) }, None, None),
+    ];
+    let all: Vec<MachineSpec> = arrangements
         .iter()
-        .map(|a| MachineSpec {
+        .map(|(a, ca, cb)| MachineSpec {
             allowed_padding_packets: u64::MAX,
             max_padding_frac: Fx(0.0),
             allowed_blocked_microsec: u64::MAX,
             max_blocking_frac: Fx(0.0),
             states: vec![
                 StateSpec { action: None, counter_a: None, counter_b: None, trans: vec![(0, vec![(1, Fs(1.0))])] },
-                StateSpec {
-                    action: Some(*a),
-                    counter_a: Some(CounterSpec { op: 0, dist: Some(c.dist), copy: false }),
-                    counter_b: None,
-                    trans: vec![],
-                },
+                StateSpec { action: Some(*a), counter_a: *ca, counter_b: *cb, trans: vec![] },
             ],
         })
         .collect();
-    let Ok(built) = build_machines(&machines) else {
+    // each machine is judged by Machine::new on its own
+    let machines: Vec<MachineSpec> = all.into_iter().filter(|m| m.build().is_ok()).collect();
+    if machines.is_empty() {
         obs.hit("rejected_by_validation");
         return Ok(());
-    };
+    }
+    let built = build_machines(&machines).unwrap_or_else(|e| panic!("machines accepted one by one are rejected together: {e}"));
     obs.hit("via_machine_validation");
     if c.dist.to_dist().validate().is_err() {
         // Machine::new accepted what Dist::validate rejects: it is run all the same, and C12
